@@ -5,9 +5,9 @@ CFG = cfg('C14', refine=[], extract='Ex_C14', driver='c14',
                '(public and private), 0-4 user ids / attributes each with 0-4 self / third-party / revocation signatures, direct-key and key '
                'revocation signatures, 0-3 subkeys with binding signatures carrying 0-2 embedded cross-signatures, few distinct creation times '
                '(many ties), explicit exportable 0/1, interleaved Trust packets, Opaque packets (signature tag and other), the same key / subkey twice, '
-               'malformed starts (leading signature, user id or subkey before any primary key, public/private mismatch); per case: structure of every '
+               'a blob that repeats a key (A, B, A), malformed starts (leading signature, user id or subkey before any primary key, public/private mismatch); per case: structure of every '
                'key of the from_blob dictionary, bytes(key) split by an independent splitter, copy.copy, .pubkey compared with the extracted model; '
-               'direct oracles (re-import binary and armored, second round trip, copy identity, explicit exportable=True, concatenation) on the real '
+               'direct oracles (bytes(key) = key packet + exactly the exportable signature packets of the key itself, of every user id and of every subkey; re-import binary and armored, second round trip, copy identity, explicit exportable=True, concatenation) on the real '
                'objects; plus keys made by random key-management histories (C15 operations) with cryptographic verification after import. '
                'distinct = distinct token sequences / histories that reached a non-error path',
           trusted=['tools/harness/c14.py World: token <-> packet octets mapping (PGPy packet classes build the octets, an independent splitter reads them back)'],
